@@ -33,6 +33,25 @@ fn main() {
         Err(e) => { eprintln!("{}", e); std::process::exit(2); }
       }
     }
+    "show" => {
+      // pv show <replay file>: prints the unified log of the (transformed) case, for debugging.
+      if args.len() < 3 { usage(); }
+      let path = Path::new(&args[2]);
+      let (prop, _label) = pv::driver::replay_label(path).expect("replay file");
+      let (_, _, case): (_, _, pv::lang::Case) = pv::driver::load_replay(path).expect("case");
+      let spec = pv::props::build::spec_of(&prop).expect("spec");
+      let tcase = (spec.transform)(&case);
+      println!("{}", pv::lang::pretty_case(&tcase));
+      let run = pv::engine::run_case(&tcase, &(spec.opts)());
+      for (si, s) in run.sessions.iter().enumerate() {
+        println!("== session {} (step {}) state_before {:?} changed {:?}", si, s.step, s.state_before, s.changed_before);
+        for b in &s.builds {
+          println!("-- build {:?} -> {:?}", b.kind, b.result);
+          for (i, l) in run.log[b.log.clone()].iter().enumerate() { println!("   {:4} {:?}", b.log.start + i, l); }
+        }
+      }
+      std::process::exit(0);
+    }
     "trace" => {
       if args.len() < 3 { usage(); }
       match pv::props::build::trace_digest_of_file(Path::new(&args[2])) {
